@@ -9,7 +9,7 @@ ID = "C15"
 LEVEL = "exploration"
 RULE = ("cases are expression trees (depth <= 4) whose leaves are calls of logging functions (one logger per result type; "
         "recursive loggers keep temporaries live across nested activations) and - in half of the cases - BARE reads of mutable state (a variable, a list element, an object field) "
-        "next to logging calls that change that state, and operands that are PATHS rooted at a `const` or a plain name (a logging method call that changes its object, a field read, a subscript computed by a logging call), and - one leaf in seven - plain CONSTANTS (so that `f() && false`, `g() || true`, `h() * 0` occur), combined by binary operators (printed with the "
+        "next to logging calls that change that state, operands that FAIL when evaluated (unwrapping nil, an element that is not there) behind a `&&` / `||` whose left side - a guard or a logging call - decides the result, and operands that are PATHS rooted at a `const` or a plain name (a logging method call that changes its object, a field read, a subscript computed by a logging call), and - one leaf in seven - plain CONSTANTS (so that `f() && false`, `g() || true`, `h() * 0` occur), combined by binary operators (printed with the "
         "minimal parentheses of the precedence table, or explicitly parenthesised), calls with 0-4 arguments whose callees "
         "log on entry, method calls, list and map literals, indexing, &&, ||, `or`; the oracle is the reference interpreter's "
         "log sequence followed by the value. Non-trivial = >= 3 logging leaves of which one is nested >= 2 deep, or a bare state read and a mutator in one expression; distinct by "
@@ -57,6 +57,12 @@ def prelude():
     st_.append(("decl", "cc", None, ("new", "Cn", [I(0)]), ("const",)))
     st_.append(("decl", "vc", None, ("new", "Cn", [I(0)]), ()))
     st_.append(("decl", "ct", ("list", "int"), ("list", [I(10), I(20), I(30)]), ("const",)))
+    # operands that FAIL when they are evaluated (unwrapping nil, reading an element that is not there) and their harmless twins:
+    # behind a `&&` / `||` whose left side decides the result they must not be evaluated at all
+    st_.append(("decl", "ob", ("opt", "bool"), ("nil",), ()))
+    st_.append(("decl", "obt", ("opt", "bool"), ("lit", "bool", True), ()))
+    st_.append(("decl", "eb", ("list", "bool"), ("list", []), ()))
+    st_.append(("decl", "nb", ("list", "bool"), ("list", [("lit", "bool", True)]), ()))
     for n in range(0, 5):
         params = [("a%d" % i, "int") for i in range(n)]
         body = [("print", S("A%d" % n))]
@@ -128,6 +134,32 @@ def leaf(c, t, nest):
             g.label("recursive-logger")
             return ("call", V("R"), [I(g.int(1, 3)), c.key(), I(g.int(-3, 4))])
         return ("call", V("Li"), [c.key(), I(g.int(-3, 4))])
+    if t == "bool" and g.chance(22):
+        # a guard in front of an operand that cannot be evaluated when the guard says so (no call in it: nothing to log, only to fail)
+        absent = g.chance(65)
+        src = g.choice(["optional", "element"])
+        g.label("guarded-failing-operand:%s:%s" % (src, "absent" if absent else "present"))
+        c.leaves += 1
+        if src == "optional":
+            o = V("ob" if absent else "obt")
+            risky = ("get", o)
+            guard_and, guard_or = ("bin", "!=", o, ("nil",)), ("bin", "==", o, ("nil",))
+        else:
+            l = V("eb" if absent else "nb")
+            risky = ("index", l, I(0))
+            guard_and, guard_or = ("bin", ">", ("mcall", l, "len", []), I(0)), ("bin", "==", ("mcall", l, "len", []), I(0))
+        form = g.choice(["and", "or", "logged-and", "logged-or", "and-not", "nested"])
+        if form == "and":
+            return ("paren", ("bin", "&&", guard_and, risky))
+        if form == "or":
+            return ("paren", ("bin", "||", guard_or, risky))
+        if form == "logged-and":
+            return ("paren", ("bin", "&&", ("call", V("Lb"), [c.key(), ("lit", "bool", not absent)]), risky))
+        if form == "logged-or":
+            return ("paren", ("bin", "||", ("call", V("Lb"), [c.key(), ("lit", "bool", absent)]), risky))
+        if form == "and-not":
+            return ("paren", ("bin", "&&", guard_and, ("not", risky)))
+        return ("paren", ("bin", "||", ("paren", ("bin", "&&", guard_and, risky)), ("call", V("Lb"), [c.key(), ("lit", "bool", g.chance(50))])))
     if t == "bool":
         return ("call", V("Lb"), [c.key(), ("lit", "bool", g.chance(50))])
     if t == "str":
